@@ -999,7 +999,8 @@ def _create_socks_endpoint(reactor, control_protocol, socks_config=None):
 
     # everything in the SocksPort list can include "options" after the
     # initial value. We don't care about those, but do need to strip
-    # them.
+    # them (keeping the lines as Tor reported them, for re-listing)
+    socks_lines = list(socks_ports)
     socks_ports = [port.split()[0] for port in socks_ports]
 
     # could check platform? but why would you have unix ports on a
@@ -1027,12 +1028,13 @@ def _create_socks_endpoint(reactor, control_protocol, socks_config=None):
             # this?
             port = yield available_tcp_port(reactor)
             socks_config = str(port)
-        socks_ports.append(socks_config)
+        socks_lines.append(socks_config)
 
         # NOTE! We must set all the ports in one command or we'll
-        # destroy pre-existing config
+        # destroy pre-existing config (so every existing line goes
+        # back exactly as it was, options included)
         args = []
-        for p in socks_ports:
+        for p in socks_lines:
             args.append('SOCKSPort')
             args.append(p)
         yield control_protocol.set_conf(*args)
